@@ -39,4 +39,4 @@ def check(model, R, tier):
                     'targets, inverse permutations, accumulating scatters, reduced-axis re-insertion and axis normalisation. It does NOT decide the numerical '
                     'value of any Jacobian entry (a wrong but linear, correctly shaped closed form is out of reach).',
         assumptions=['NumPy API roles as frozen in sa/domains/linear.py and sa/rules_kernel.py', 'kernels are reached only through the catalogued wrappers'],
-        technique='ast op-template extraction + abstract interpretation (gradient-linearity lattice) + def-use rules')
+        technique='op-template extraction + abstract interpretation (gradient linearity, must-dependence, axis typestate) + term differentiation + partial evaluation (flag valuations of wrapper and closure; reduction kernels on concrete axis cases)')
